@@ -10,9 +10,10 @@ parses without error, the two contents agree up to blank value lines. Here:
 1. **Acceptance.** The lossy reader accepts strictly less: `C06_lossy_imp_strict` (whatever
    `lossy::Deb822::from_str` accepts, `lossless::Deb822::from_str` accepts), so the second hypothesis
    of `C06_agree` is redundant (`C06_agree_lossy_only`); and the exact difference
-   (`C06_accept_iff`): the lossy reader accepts a text iff the lossless reader does and no
-   WHITESPACE token directly follows a KEY token (`Name : value` — `skip_ws` after the key exists
-   only in the lossless parser). Empty documents, blank lines / comments before, between and after
+   (`C06_accept_iff`, `C06_accept_iff_colon`): the lossy reader accepts a text iff the lossless
+   reader does and no WHITESPACE token directly follows a KEY token — equivalently
+   (`C06_blank_forms`) no WHITESPACE token stands between a KEY and its COLON (`Name : value`;
+   `skip_ws` after the key exists only in the lossless parser). Empty documents, blank lines / comments before, between and after
    the paragraphs, a missing final newline make no difference.
 2. **Normal form.** `C06_normal`: the lossless value of every field is exactly the lossy value
    with its empty lines removed; `C06_same_iff`: the two contents are EQUAL iff no lossy value has
@@ -59,6 +60,38 @@ theorem C06_accept_iff (s : Str) :
   · rintro ⟨h1, h2⟩
     exact conv_tok (lex s) (lex_lx s) (lex_ls s) h2 h1
 
+/-- the condition in the form "a WHITESPACE token directly between a KEY and its COLON" -/
+def blankBeforeColon (s : Str) : Bool := keyWsColon (lex s)
+
+/-- the same characterisation with `KEY WHITESPACE COLON` triples instead of `KEY WHITESPACE` pairs -/
+theorem C06_accept_iff_colon (s : Str) :
+    (∃ d, Lossy.read s = .ok d) ↔ ((parse s).errors = [] ∧ blankBeforeColon s = false) := by
+  constructor
+  · intro h
+    obtain ⟨h1, h2⟩ := (C06_accept_iff s).1 h
+    refine ⟨h1, ?_⟩
+    cases hb : blankBeforeColon s with
+    | false => rfl
+    | true =>
+      have := keyWs_of_keyWsColon (lex s) hb
+      simp only [blankAfterKey] at h2
+      rw [h2] at this; cases this
+  · rintro ⟨h1, h2⟩
+    exact conv_tok_colon (lex s) (lex_lx s) (lex_ls s) (lex_lx2 s) h2 h1
+
+/-- when the lossless reader reports no error the two forms of the condition coincide: the token
+    after the blanks that follow a field name is the colon -/
+theorem C06_blank_forms (s : Str) (h : (parse s).errors = []) : blankAfterKey s = blankBeforeColon s := by
+  cases ha : blankAfterKey s with
+  | false =>
+    exact (((C06_accept_iff_colon s).1 ((C06_accept_iff s).2 ⟨h, ha⟩)).2).symm
+  | true =>
+    cases hb : blankBeforeColon s with
+    | true => rfl
+    | false =>
+      have := ((C06_accept_iff s).1 ((C06_accept_iff_colon s).2 ⟨h, hb⟩)).2
+      rw [this] at ha; cases ha
+
 /-- the texts only the lossless reader accepts -/
 theorem C06_strict_only_iff (s : Str) :
     ((parse s).errors = [] ∧ ∃ e, Lossy.read s = .error e) ↔
@@ -82,6 +115,7 @@ theorem C06_strict_only_iff (s : Str) :
 /-- the containment is strict: `A : b` is accepted by the lossless reader only -/
 theorem C06_strict_accepts_more :
     (parse "A : b\n".toList).errors = [] ∧ blankAfterKey "A : b\n".toList = true ∧
+      blankBeforeColon "A : b\n".toList = true ∧
       Lossy.read "A : b\n".toList = .error .UnexpectedToken := by
   decide +kernel
 
@@ -92,7 +126,11 @@ theorem C06_strict_accepts_more :
 example : ∃ d, Lossy.read exOdd = .ok d :=
   ⟨[[("A".toList, "b\n\n\nd ".toList), ("B".toList, "\n".toList)], [("C".toList, "e:f\ng".toList)]],
     by decide +kernel⟩
-example : (parse exOdd).errors = [] ∧ blankAfterKey exOdd = false := by decide +kernel
+example : (parse exOdd).errors = [] ∧ blankAfterKey exOdd = false ∧ blankBeforeColon exOdd = false := by
+  decide +kernel
+/-- without `(parse s).errors = []` the two forms differ: a blank after the name, no colon -/
+example : blankAfterKey "A b\n".toList = true ∧ blankBeforeColon "A b\n".toList = false ∧
+    (parse "A b\n".toList).errors ≠ [] := by decide +kernel
 example : ∃ d, Lossy.read Props.C03.exDoc.str = .ok d := ⟨_, (C06_joint_accept _ (by decide)).1⟩
 example : Lossy.read [] = .ok [] ∧ (parse []).errors = [] ∧ blankAfterKey [] = false := by
   decide +kernel
